@@ -12,6 +12,7 @@ import OpfVerif.Model.Lawful
 import OpfVerif.Model.Measures
 import OpfVerif.Model.Stream
 import OpfVerif.Model.Learn
+import OpfVerif.Model.Pipeline
 import OpfVerif.Gen.Distance
 import OpfVerif.Gen.Decorator
 open Opf
@@ -245,6 +246,44 @@ def runNcut : RM String := do
   let v := normalizedCutG (0.0 : Float) 1.0 (fun i j => dm.getD (i * n + j) 0.0) adj np k (fun i => clu.getD i 0) n nc
   return fbits v
 
+/-- `unsfit n minK maxK distbits[n*n] ntape (argbits resbits)*ntape` : whole `UnsupervisedOPF.fit` -/
+def runUnsFit : RM String := do
+  let n ← nextN
+  let minK ← nextN
+  let maxK ← nextN
+  let mut dm : Array Float := #[]
+  for _ in [0:n*n] do dm := dm.push (← rdF)
+  let nt ← nextN
+  let mut tape : Array (Float × Float) := #[]
+  for _ in [0:nt] do
+    let a ← rdF
+    let r ← rdF
+    tape := tape.push (a, r)
+  let (s, cuts, bk, rest) := unsFit (fun i j => dm.getD (i * n + j) 0.0) n minK maxK tape.toList
+  let fl (a : Array Float) := " ".intercalate (a.toList.map fbits)
+  return s!"{match bk with | none => "-1" | some k => toString k} | {" ".intercalate (cuts.map fbits)} | {showLists s.sub.adj} | {showNats s.sub.nplat} | {showOpt s.pred} | {showNats s.root} | {showNats s.clu} | {fl s.cost} | {fl s.dens} | {showNats s.order} | {s.nclusters} | {fbits s.constant} {fbits s.minD} {fbits s.maxD} | {fbits (decF s.sub.bound)} | {if s.tapeOk then 1 else 0} {rest.length}"
+
+/-- `knnfit n nv maxK y[n] yv[nv] distbits[n*n] qdistbits[nv*n] ntape (argbits resbits)*` : whole `KNNSupervisedOPF.fit` -/
+def runKnnFit : RM String := do
+  let n ← nextN
+  let nv ← nextN
+  let maxK ← nextN
+  let y := (← nextNs n).toList
+  let yv := (← nextNs nv).toList
+  let mut dm : Array Float := #[]
+  for _ in [0:n*n] do dm := dm.push (← rdF)
+  let mut qm : Array Float := #[]
+  for _ in [0:nv*n] do qm := qm.push (← rdF)
+  let nt ← nextN
+  let mut tape : Array (Float × Float) := #[]
+  for _ in [0:nt] do
+    let a ← rdF
+    let r ← rdF
+    tape := tape.push (a, r)
+  let (s, accs, bk, rest) := knnFit (fun i j => dm.getD (i * n + j) 0.0) (fun q j => qm.getD (q * n + j) 0.0) n nv maxK y yv tape.toList
+  let fl (a : Array Float) := " ".intercalate (a.toList.map fbits)
+  return s!"{match bk with | none => "-1" | some k => toString k} | {" ".intercalate (accs.map fbits)} | {showOpt s.pred} | {showNats s.root} | {showNats s.lab} | {fl s.cost} | {fl s.dens} | {showNats s.order} | {fbits s.constant} {fbits s.minD} {fbits s.maxD} | {fbits (decF s.sub.bound)} | {if s.tapeOk then 1 else 0} {rest.length}"
+
 def runSelMax : RM String := do
   let start ← nextI
   let n ← nextN
@@ -418,6 +457,8 @@ def dispatch (line : String) : String :=
     | "cluster" => run runCluster
     | "knnq" => run runKnnq
     | "ncut" => run runNcut
+    | "unsfit" => run runUnsFit
+    | "knnfit" => run runKnnFit
     | "selmax" => run runSelMax
     | "selcut" => run runSelCut
     | "lawfit" => run runLawFit
